@@ -119,6 +119,7 @@ def co_wait(cond):
     me = {'woken': False, 'tid': CUR[0]}
     cond.waiters.append(me)
     cond.owner = None
+    yield ('pt', 'released the lock to wait')     # a state change: threads blocked on the lock can go on
     while not me['woken']:
         yield ('blocked', cond)
     yield from co_acquire(cond)
@@ -201,9 +202,28 @@ class CoTransformer(ast.NodeTransformer):
         node.decorator_list = []
         return node
 
+    @staticmethod
+    def _is_call_on_lock(s, name):
+        return (isinstance(s, ast.Expr) and isinstance(s.value, ast.Call) and isinstance(s.value.func, ast.Attribute)
+                and s.value.func.attr == name and _is_lock_expr(s.value.func.value))
+
     def _block(self, stmts):
         out = []
+        prev_acquire = False
         for s in stmts:
+            # `lock.acquire()` followed by `try: ... finally: lock.release()` is a critical section: no switch points
+            # inside (another thread could only block on the lock anyway); waits inside still yield
+            if prev_acquire and isinstance(s, ast.Try) and any(self._is_call_on_lock(f, 'release') for f in s.finalbody):
+                self.in_lock += 1
+                s.body = self._block(s.body)
+                for h in s.handlers:
+                    h.body = self._block(h.body)
+                s.finalbody = self._block(s.finalbody)
+                self.in_lock -= 1
+                out.append(self.generic_visit(s))
+                prev_acquire = False
+                continue
+            prev_acquire = self._is_call_on_lock(s, 'acquire')
             if isinstance(s, ast.Expr) and isinstance(s.value, ast.Constant) and isinstance(s.value.value, str):
                 continue
             if self.in_lock == 0 and self._touches_shared(s):
@@ -293,6 +313,8 @@ class Scheduler:
         self.k = 0
         self.max_steps = max_steps
         self.trace = []
+        self.tracing = False
+        self.pin = None
         SCHED[0] = self
 
     def choose(self, n):
@@ -324,22 +346,22 @@ class Scheduler:
                     for j in cand:
                         if pt == j:
                             forced = j
-            pinned = False
+            if self.pin is not None and self.pin not in cand:
+                self.pin = None       # the preempted-to thread blocked or ended
             if forced is not None:
                 i = forced
                 self.pin = forced
-            elif self.prio is not None and self.k >= len(self.choices):
-                if getattr(self, 'pin', None) in cand:
-                    i = self.pin      # a preempted-to thread keeps running until it blocks or ends
-                else:
-                    i = cand[0]
-                    for j in cand[1:]:
-                        if self.prio[j] > self.prio[i]:
-                            i = j
-            elif cur in cand and self.k >= len(self.choices):
-                i = cur
-            elif len(cand) > 1:
+            elif self.k < len(self.choices) and len(cand) > 1:
                 i = cand[self.choose(len(cand))]
+            elif self.pin is not None:
+                i = self.pin          # a preempted-to thread keeps running until it blocks or ends
+            elif self.prio is not None:
+                i = cand[0]
+                for j in cand[1:]:
+                    if self.prio[j] > self.prio[i]:
+                        i = j
+            elif cur in cand:
+                i = cur
             else:
                 i = cand[0]
             cur = i
@@ -355,6 +377,8 @@ class Scheduler:
                 CUR[0] = 0
                 return 'self-deadlock: ' + str(e)
             CUR[0] = 0
+            if self.tracing:
+                self.trace.append((steps, i, r[0] if isinstance(r, tuple) and r else r, r[1] if isinstance(r, tuple) and len(r) > 1 and not isinstance(r[1], object.__class__) else None))
             if isinstance(r, tuple) and r and r[0] == 'blocked':
                 blocked[i] = True
             else:
